@@ -88,7 +88,11 @@ def field_array_contract():
 # ---------------------------------------------------------------- encode.field_table
 def field_table_loop():
     def seq_of(ip, it):
-        return wire.dict_sorted(it.t) if is_kind(it, 'sorted_items') else None
+        if is_kind(it, 'sorted_items'):
+            return wire.dict_sorted(it.t)
+        if is_kind(it, 'items'):
+            return wire.dict_inserted(it.t)      # insertion order: not the order the specification encodes in
+        return None
 
     def bind(ip, rem):
         k = SStr(wire.seq_key(rem))
@@ -129,8 +133,8 @@ def field_table_loop():
     class Loop(CutSeqFor):
         def run_for(self, ip, node, fr, iterable):
             # remember the whole (sorted) entry sequence: the loop rebinds `value`
-            if is_kind(iterable, 'sorted_items'):
-                fr.locals['__table_entries__'] = wire.dict_sorted(iterable.t)
+            if is_kind(iterable, 'sorted_items') or is_kind(iterable, 'items'):
+                fr.locals['__table_entries__'] = seq_of(ip, iterable)
             return CutSeqFor.run_for(self, ip, node, fr, iterable)
 
     return Loop(seq_of, bind, havoc, inv, doc='join(data) ++ enc_entries(rem) == enc_entries(sorted entries); variant |rem|')
@@ -240,9 +244,9 @@ def encode_table_value_contract():
     cases.append(Case('none', when=lambda c: c.value is None, returns=lambda c: b'V'))
 
     is_dec = lambda v: is_kind(v, 'decimal')
-    cases.append(Case('decimal', when=lambda c: is_dec(c.value) and wire.decimal_ok(c.value.t),
+    cases.append(Case('decimal', when=lambda c: is_dec(c.value) and wire.decimal_ok(c.value),
                       returns=lambda c: wire.cat(c.st, b'D', wire.decimal_bytes(c.st, c.value))))
-    cases.append(Case('decimal-refused', when=lambda c: is_dec(c.value) and neg(wire.decimal_ok(c.value.t)),
+    cases.append(Case('decimal-refused', when=lambda c: is_dec(c.value) and neg(wire.decimal_ok(c.value)),
                       raises=ENCODE_REFUSALS))
 
     def other(c):
@@ -477,8 +481,22 @@ def container_decoder(kind, total=False):
     def setup(c):
         c.st.loop_ghost = getattr(c.st, 'loop_ghost_pending', None)
 
+    def samples(rng, n):
+        """grammar-generated containers and fault-injected variants (bounded stand-in behind a sat verdict)"""
+        from spec import ref
+        out = [b'', b'\x00\x00\x00\x01', b'\x00\x00\x00\x05t', b'\xff\xff\xff\xff']
+        for _ in range(6):
+            try:
+                good = ref.enc_table(ref.gen_table(rng, 2)) if kind == 'table' else ref.enc_value(
+                    [ref.gen_value(rng, 2) for _ in range(rng.randrange(0, 4))])[1:]
+            except ref.Refused:
+                continue
+            out.append(good)
+            out.extend(ref.faulty(rng, good)[:20])
+        return out
+
     if total:
-        insts = TSpec([('arbitrary-octets', lambda st, n: SBytes([st.new_chunk(n)]))])
+        insts = TSpec([('arbitrary-octets', lambda st, n: SBytes([st.new_chunk(n)]), samples)])
     else:
         insts = TSpec([('grammar-valid-' + kind, mk_g), ('empty-' + kind, mk_empty)])
 
@@ -515,3 +533,71 @@ def register(reg):
     reg.add(container_decoder('array'))
     reg.add(container_decoder('table', total=True))
     reg.add(container_decoder('array', total=True))
+    reg.add(c03_lemma())
+
+
+# ================================================================ C03 round-trip lemma (per type class)
+def c03_lemma():
+    """decode(encode(v) ++ rest) consumes exactly the encoding and returns Norm(v) with the same Python type."""
+    L = 'contracts.lemmas.c03_roundtrip'
+    S64 = (-2 ** 63, 2 ** 63 - 1)
+    domain = (T.bool | T.int | T.float | T.decimal | T.str | T.bytearray | T.dt_naive | T.dt_aware | T.struct_time
+              | T.none | T.list | T.dict)
+
+    def req(c):
+        st, v = c.st, c.value
+        lg = B(leg(c))
+        if isinstance(v, SInt):
+            return in_range(v, *S64)
+        if isinstance(v, SFloat):
+            return lib.f32_fits(v.t)
+        if is_kind(v, 'decimal'):
+            return wire.decimal_ok(v)
+        if isinstance(v, SStr):
+            return conj(wire.str_encodable(st, v), lt(wire.blen(st, wire.str_utf8(st, v)), 2 ** 32))
+        if isinstance(v, SBytes):
+            return lt(wire.blen(st, v), 2 ** 32)
+        if isinstance(v, SOpaque) and v.kind in ('datetime_naive', 'datetime_aware', 'struct_time'):
+            return in_range(SInt(wire.dt_seconds(v.t)), 0, 0xFFFFFFFF)     # C03: between the epoch and 2106
+        if is_kind(v, 'list'):
+            wire.array_bytes(st, v, leg(c))
+            # the container round trip (spec-level composition of the verified encoder and decoder contracts)
+            t = wire.enc_array(v.t, lg)
+            st.assume(z3.Implies(wire.array_encodable(v.t, lg),
+                                 z3.And(wire.wf_array(t), wire.dec_array(t) == wire.norm_value(v.t))))
+            return wire.array_encodable(v.t, lg)
+        if is_kind(v, 'dict'):
+            wire.table_unfold(st, v, leg(c))
+            t = wire.enc_table(v.t, lg)
+            st.assume(z3.Implies(wire.table_encodable(v.t, lg),
+                                 z3.And(wire.wf_table(t), wire.dec_table(t) == wire.norm_value(v.t))))
+            return conj(obj_nonempty(v.t), wire.table_encodable(v.t, lg))
+        return True
+
+    def norm(c):
+        st, v = c.st, c.value
+        if isinstance(v, SFloat):
+            return SFloat(lib.round32(v.t))
+        if isinstance(v, SOpaque) and v.kind in ('datetime_naive', 'datetime_aware', 'struct_time'):
+            return SOpaque('datetime_aware', wire.dt_of_seconds(wire.dt_seconds(v.t)))
+        if is_kind(v, 'list') or is_kind(v, 'dict'):
+            return SOpaque(v.kind, wire.norm_value(v.t))
+        if is_kind(v, 'decimal'):
+            return SOpaque('decimal', wire.decimal_of(wire.dec_unscaled(v.t), wire.dec_scale(v.t)))
+        return v
+
+    def post(c, res):
+        st = c.st
+        data, (consumed, got) = res
+        v = c.value
+        if is_kind(v, 'list') and isinstance(got, list) and not got:
+            # the empty list comes back as the empty list
+            return conj(eq(consumed, wire.blen(st, data)), wire.seq_nil(wire.list_items(v.t)))
+        t, e = values_equal(st, got, norm(c))
+        return conj(eq(consumed, wire.blen(st, data)), t if e else False)
+
+    return Contract(L, [('value', domain), ('rest', T.bytes)], requires=req,
+                    cases=[Case('consumes-the-encoding-and-returns-the-normalised-value-with-its-type', post=post)],
+                    reads=[LEGACY], pure=False, bounded=False, complete=True,
+                    doc='C03: bool stays bool, negative numbers keep their sign, strings / byte arrays identical, floats rounded '
+                        'to single precision, datetimes truncated to whole seconds in UTC, containers element-wise')
